@@ -27,7 +27,7 @@ def augment_c15(r, ops, nbody=[0]):
     return out
 
 
-def run_generic(PROP, MODULES, judge_comp, tier, seed, replay, augment, n_quick, n_thorough, text, extra=None):
+def run_generic(PROP, MODULES, judge_comp, tier, seed, replay, augment, n_quick, n_thorough, text, extra=None, parts=None):
     t0 = time.time()
     v = core.Verdict(PROP, seed)
     core.clear_replays(PROP)
@@ -89,6 +89,14 @@ def run_generic(PROP, MODULES, judge_comp, tier, seed, replay, augment, n_quick,
         impl, il, verdicts = sim.run_one(exe, judge_comp, ops, True)
         v.violation(f"judge-{jv['case']}", {"kind": f"implementation trace violates the {PROP} trace predicate (Spec/Generic.lean)",
                     "clause": jv["clause"], "ops": ops, "impl": il, "judge": verdicts})
+    # further parts of the property with their own executor (C15: the pollable under thread schedules, vlib/props/c15_pollable.py)
+    part_cov = {}
+    for name, fn in (parts or []):
+        pc, pv = fn(tier, seed, st, replay)
+        part_cov[name] = {k: x for k, x in pc.items() if k != "samples"}
+        for tag, payload, no_input in pv:
+            if not no_input or not v.violations:
+                v.violation(tag, payload, no_input=no_input)
     if not v.violations and not st.ok:
         v.violation("proof", {"kind": "proof obligation no longer checks", "broken": st.broken, "log": st.log[-3000:]}, no_input=True)
     labels = {}
@@ -103,6 +111,8 @@ def run_generic(PROP, MODULES, judge_comp, tier, seed, replay, augment, n_quick,
            "rule": text, "histories_by_protocol": labels, "ops": res.ops, "op_histogram": res.op_hist, "event_histogram": res.ev_hist,
            "samples": [cases[0], cases[-1]] if cases else [], "judge_violations": len(res.judge_viol), "crashes": len(res.crashes),
            "known_findings_reported": sorted(reported & {k["key"] for k in known})}
+    cov.update(part_cov)
+    cov["evaluations"] += sum(pc.get("cases", 0) for pc in part_cov.values())
     core.write_evidence(PROP, tier, seed, "proof", cov,
                         ["the protocol-independent judge sees only API-level observables", "per-protocol flag/ownership invariants are theorems of the protocol models (Props/Cxx)",
                          "SIM interleaves at lock granularity"], time.time() - t0, len(v.violations))
